@@ -107,17 +107,19 @@ type pstate struct {
 	visited   map[*ssa.BasicBlock]int
 	hit       bool
 	tag       string
-	epoch     map[*types.Var]int     // stores to a field passed so far on this path
-	loadEpoch map[ssa.Value]int      // epoch at which a field load executed
-	decided   map[string]Tri         // unknown conditions already decided on this path, by access path
-	phiVal    map[*ssa.Phi]ssa.Value // the incoming value each phi took on this path
+	epoch     map[*types.Var]int       // stores to a field passed so far on this path
+	loadEpoch map[ssa.Value]int        // epoch at which a field load executed
+	decided   map[string]Tri           // unknown conditions already decided on this path, by access path
+	phiVal    map[*ssa.Phi]ssa.Value   // the incoming value each phi took on this path
+	locals    map[*ssa.Alloc]ssa.Value // the last value stored into a local on this path (defer-spilled results, reassigned locals)
 	tm        *termer
 }
 
 func newPstate(fr *frame) *pstate {
 	ps := &pstate{vals: map[ssa.Value]Tri{}, ints: map[ssa.Value]int64{}, visited: map[*ssa.BasicBlock]int{},
-		epoch: map[*types.Var]int{}, loadEpoch: map[ssa.Value]int{}, decided: map[string]Tri{}, phiVal: map[*ssa.Phi]ssa.Value{}}
+		epoch: map[*types.Var]int{}, loadEpoch: map[ssa.Value]int{}, decided: map[string]Tri{}, phiVal: map[*ssa.Phi]ssa.Value{}, locals: map[*ssa.Alloc]ssa.Value{}}
 	ps.tm = newTermer(fr)
+	ps.tm.localOf = func(al *ssa.Alloc) ssa.Value { return ps.locals[al] }
 	ps.tm.tagOf = func(v ssa.Value) int { return ps.loadEpoch[v] }
 	ps.tm.phiOf = func(p *ssa.Phi) ssa.Value { return ps.phiVal[p] }
 	return ps
@@ -146,6 +148,9 @@ func (p *pstate) clone(fr *frame) *pstate {
 	}
 	for k, v := range p.phiVal {
 		q.phiVal[k] = v
+	}
+	for k, v := range p.locals {
+		q.locals[k] = v
 	}
 	return q
 }
@@ -244,6 +249,12 @@ func (w *Walker) walk(b, pred *ssa.BasicBlock, ps *pstate) {
 					}
 				}
 			case *ssa.Store:
+				if al, ok := x.Addr.(*ssa.Alloc); ok {
+					if ps.locals[al] != x.Val {
+						ps.locals[al] = x.Val
+						ps.tm.memo = map[ssa.Value]*Term{}
+					}
+				}
 				if fa, ok := x.Addr.(*ssa.FieldAddr); ok {
 					if st := derefStruct(fa.X.Type()); st != nil {
 						ps.epoch[st.Field(fa.Field)]++
@@ -406,8 +417,11 @@ func (w *Walker) evalBool(v ssa.Value, ps *pstate) Tri {
 			return w.evalBool(x.X, ps).not()
 		}
 		if x.Op == token.MUL {
-			// load of a local bool with a single store
+			// load of a local bool: the value last stored on this path (or its only store)
 			if al, ok := x.X.(*ssa.Alloc); ok {
+				if lv, ok := ps.locals[al]; ok {
+					return w.evalBool(lv, ps)
+				}
 				if sv := singleStore(al); sv != nil {
 					return w.evalBool(sv, ps)
 				}
